@@ -55,6 +55,9 @@ type ctx struct {
 	allowed map[string]bool // oids exempt (allowincompletepush)
 	model   *histgen.Model
 	rmodel  *histgen.Model
+	// second remote "backup" with its own repository and its own LFS store (http transport only)
+	bare2   string
+	rmodel2 *histgen.Model
 }
 
 func (c *ctx) viol(sym, what string) {
@@ -99,6 +102,29 @@ func (c *ctx) serverHas(oid string, size int64) (bool, string) {
 		return false, "server holds different content"
 	}
 	return true, ""
+}
+
+// invariantBackup: the same invariant for the second remote (own repository, own store).
+func (c *ctx) invariantBackup(after string) {
+	refs := c.rmodel2.Refs()
+	if len(refs) == 0 {
+		return
+	}
+	seen := map[string]bool{}
+	for _, cm := range c.rmodel2.RevList("--all") {
+		for _, p := range c.rmodel2.PointersAt(cm) {
+			if seen[p.Ptr.Oid] || c.allowed[p.Ptr.Oid] {
+				continue
+			}
+			seen[p.Ptr.Oid] = true
+			c.run.Count("object_presence_checks", 1)
+			b, ok := c.srv.Get("backup", p.Ptr.Oid)
+			if !ok || sbx.Sha256Hex(b) != p.Ptr.Oid {
+				c.viol("object-missing-on-server", fmt.Sprintf("after successful %s: commit %s path %q references %s (size %d) which is absent from the second remote's LFS store", after, cm[:10], p.Path, p.Ptr.Oid, p.Ptr.Size))
+				return
+			}
+		}
+	}
 }
 
 // invariant: every pointer in every commit in commits has its object on the server.
@@ -169,10 +195,18 @@ func runCase(run *evid.Run, idx int) *caseResult {
 	}
 	c.git("setup", "remote", "add", "origin", remoteURL)
 	if !c.stand {
-		c.git("setup", "config", "lfs.url", srv.Endpoint("origin"))
+		// per-remote endpoint (a global lfs.url would override every remote's own lfsurl)
+		c.git("setup", "config", "remote.origin.lfsurl", srv.Endpoint("origin"))
 	}
 	c.git("setup", "config", "lfs.transfer.batchsize", fmt.Sprint(batch))
 	c.git("setup", "config", "lfs.locksverify", "false")
+	twoRemotes := !c.stand && idx%3 != 2
+	if twoRemotes {
+		c.bare2 = env.InitBare("backup.git")
+		c.rmodel2 = histgen.NewModel(env, c.bare2)
+		c.git("setup", "remote", "add", "backup", c.bare2)
+		c.git("setup", "config", "remote.backup.lfsurl", srv.Endpoint("backup"))
+	}
 	if up := env.Run(sbx.RunOpt{Dir: c.g.Dir}, "git-lfs", "update"); !up.OK() {
 		run.Infra("git lfs update failed: %s", up)
 	}
@@ -184,7 +218,11 @@ func runCase(run *evid.Run, idx int) *caseResult {
 	if familyB {
 		fam = "b"
 	}
-	res.class = fmt.Sprintf("%s/family-%s/batch%d", mode, fam, batch)
+	rem := "1remote"
+	if twoRemotes {
+		rem = "2remotes"
+	}
+	res.class = fmt.Sprintf("%s/family-%s/batch%d/%s", mode, fam, batch, rem)
 	kinds := map[string]bool{}
 
 	nsteps := 3 + r.Intn(4)
@@ -259,6 +297,42 @@ func runCase(run *evid.Run, idx int) *caseResult {
 				res.pushes++
 				c.invariant(c.model, c.model.RevList("--branches", "--tags"), "git lfs push --all origin")
 			}
+		case k < 91 && c.bare2 != "":
+			b := c.localBranch()
+			switch c.r.Intn(3) {
+			case 0:
+				kinds["backup-push-branch"] = true
+				if c.git("backup-push-branch", "push", "backup", b).OK() {
+					res.pushes++
+					c.invariantBackup("git push backup " + b)
+				}
+			case 1:
+				kinds["backup-push-all"] = true
+				if c.git("backup-push-all", "push", "--all", "backup").OK() {
+					res.pushes++
+					c.invariantBackup("git push --all backup")
+				}
+			default:
+				kinds["backup-lfs-push"] = true
+				if c.git("backup-lfs-push", "lfs", "push", "backup", b).OK() {
+					res.pushes++
+					// everything reachable from b must now be in the second store
+					seen := map[string]bool{}
+					for _, cm := range c.model.RevList(b) {
+						for _, p := range c.model.PointersAt(cm) {
+							if seen[p.Ptr.Oid] || c.allowed[p.Ptr.Oid] {
+								continue
+							}
+							seen[p.Ptr.Oid] = true
+							c.run.Count("object_presence_checks", 1)
+							if bb, ok := c.srv.Get("backup", p.Ptr.Oid); !ok || sbx.Sha256Hex(bb) != p.Ptr.Oid {
+								c.viol("object-missing-on-server", fmt.Sprintf("after successful git lfs push backup %s: commit %s path %q references %s which is absent from the second remote's LFS store", b, cm[:10], p.Path, p.Ptr.Oid))
+								break
+							}
+						}
+					}
+				}
+			}
 		case k < 94 && !c.stand:
 			// a second clone moves the remote branch (legitimately stale tracking refs in "work")
 			kinds["second-clone"] = true
@@ -331,6 +405,14 @@ func runCase(run *evid.Run, idx int) *caseResult {
 		res.pushes++
 		c.invariant(c.rmodel, c.remoteCommits(), "final git push --all origin")
 	}
+	if c.bare2 != "" {
+		// ... and with a push of everything to the second remote AFTER origin has it all
+		kinds["backup-final"] = true
+		if c.git("backup-push-all-final", "push", "--all", "backup").OK() {
+			res.pushes++
+			c.invariantBackup("final git push --all backup (after origin)")
+		}
+	}
 	if familyB {
 		// re-point the remote to a fresh repository + fresh LFS store: the tracking refs are now stale
 		kinds["repoint-remote"] = true
@@ -339,7 +421,7 @@ func runCase(run *evid.Run, idx int) *caseResult {
 		c.rmodel = histgen.NewModel(env, bare2)
 		c.repoKey = "origin2"
 		c.git("setup", "remote", "set-url", "origin", bare2)
-		c.git("setup", "config", "lfs.url", srv.Endpoint("origin2"))
+		c.git("setup", "config", "remote.origin.lfsurl", srv.Endpoint("origin2"))
 		b := c.localBranch()
 		c.newCommit(b)
 		if c.git("push-repointed", "push", "origin", b).OK() {
